@@ -5,6 +5,7 @@ package main
 
 import (
 	"os"
+	"sort"
 	"bufio"
 	"fmt"
 	"io"
@@ -99,11 +100,40 @@ var smtLog = func() *os.File {
 	return nil
 }()
 
-// define emits definitions for t and everything below it (iteratively, to avoid deep recursion).
-func (s *Solver) define(t *Term) {
-	if t.op == OpConst {
-		return
+// declareSyms declares the symbols of t that the solver does not know yet (at the current level).
+func (s *Solver) declareSyms(t *Term) {
+	seen := map[*Term]bool{}
+	st := []*Term{t}
+	for len(st) > 0 {
+		x := st[len(st)-1]
+		st = st[:len(st)-1]
+		if x == nil || seen[x] || x.op == OpConst {
+			continue
+		}
+		seen[x] = true
+		if x.op == OpSym {
+			if _, ok := s.declared[x.name]; !ok {
+				s.declared[x.name] = len(s.stack)
+				fmt.Fprintf(&s.buf, "(declare-const %s %s)\n", symSMTName(x.name), sortOf(x.w))
+			}
+			continue
+		}
+		st = append(st, x.a, x.b, x.c)
 	}
+}
+
+// define is kept for call sites that only need the symbols declared.
+func (s *Solver) define(t *Term) { s.declareSyms(t) }
+
+// PrintTerm renders t as one closed SMT-LIB term; subterms used more than once are let-bound so the
+// solver receives the DAG, not a tree.
+func PrintTerm(t *Term) string {
+	if t.op == OpConst || t.op == OpSym {
+		return t.ref()
+	}
+	// reference counts within the DAG of t
+	refs := map[*Term]int{}
+	var order []*Term // post-order of non-leaf nodes
 	type item struct {
 		t    *Term
 		done bool
@@ -113,32 +143,59 @@ func (s *Solver) define(t *Term) {
 		it := st[len(st)-1]
 		st = st[:len(st)-1]
 		x := it.t
-		if x.op == OpConst {
-			continue
-		}
-		if x.op == OpSym {
-			if _, ok := s.declared[x.name]; !ok {
-				s.declared[x.name] = len(s.stack)
-				fmt.Fprintf(&s.buf, "(declare-const %s %s)\n", symSMTName(x.name), sortOf(x.w))
-			}
-			continue
-		}
-		hn := x.hname()
-		if _, ok := s.defined[hn]; ok {
+		if x == nil || x.op == OpConst || x.op == OpSym {
 			continue
 		}
 		if it.done {
-			s.defined[hn] = len(s.stack)
-			fmt.Fprintf(&s.buf, "(define-fun %s () %s %s)\n", hn, sortOf(x.w), x.body())
+			order = append(order, x)
+			continue
+		}
+		refs[x]++
+		if refs[x] > 1 {
 			continue
 		}
 		st = append(st, item{x, true})
-		for _, c := range []*Term{x.a, x.b, x.c} {
-			if c != nil {
-				st = append(st, item{c, false})
-			}
+		st = append(st, item{x.c, false}, item{x.b, false}, item{x.a, false})
+	}
+	names := map[*Term]string{}
+	var pr func(x *Term) string
+	pr = func(x *Term) string {
+		if x.op == OpConst || x.op == OpSym {
+			return x.ref()
+		}
+		if n, ok := names[x]; ok {
+			return n
+		}
+		switch x.op {
+		case OpExtract:
+			return fmt.Sprintf("((_ extract %d %d) %s)", x.k>>8, x.k&0xff, pr(x.a))
+		case OpZExt:
+			return fmt.Sprintf("((_ zero_extend %d) %s)", x.w-x.a.w, pr(x.a))
+		case OpSExt:
+			return fmt.Sprintf("((_ sign_extend %d) %s)", x.w-x.a.w, pr(x.a))
+		case OpNot, OpNeg, OpBNot:
+			return "(" + opNames[x.op] + " " + pr(x.a) + ")"
+		case OpIte:
+			return "(ite " + pr(x.a) + " " + pr(x.b) + " " + pr(x.c) + ")"
+		}
+		return "(" + opNames[x.op] + " " + pr(x.a) + " " + pr(x.b) + ")"
+	}
+	var sb strings.Builder
+	nlet := 0
+	for _, x := range order {
+		if refs[x] > 1 && x != t {
+			body := pr(x)
+			n := fmt.Sprintf("l%d", nlet)
+			nlet++
+			fmt.Fprintf(&sb, "(let ((%s %s)) ", n, body)
+			names[x] = n
 		}
 	}
+	sb.WriteString(pr(t))
+	for i := 0; i < nlet; i++ {
+		sb.WriteString(")")
+	}
+	return sb.String()
 }
 
 func (s *Solver) flush() {
@@ -157,11 +214,6 @@ func (s *Solver) SyncPC(pc []*Term) {
 	if n < len(s.stack) {
 		fmt.Fprintf(&s.buf, "(pop %d)\n", len(s.stack)-n)
 		s.stack = s.stack[:n]
-		for k, l := range s.defined {
-			if l > n {
-				delete(s.defined, k)
-			}
-		}
 		for k, l := range s.declared {
 			if l > n {
 				delete(s.declared, k)
@@ -171,8 +223,8 @@ func (s *Solver) SyncPC(pc []*Term) {
 	for _, t := range pc[n:] {
 		s.buf.WriteString("(push 1)\n")
 		s.stack = append(s.stack, t.ref())
-		s.define(t)
-		fmt.Fprintf(&s.buf, "(assert %s)\n", t.ref())
+		s.declareSyms(t)
+		fmt.Fprintf(&s.buf, "(assert %s)\n", PrintTerm(t))
 	}
 }
 
@@ -188,12 +240,18 @@ func (s *Solver) Check(pc []*Term, extra *Term) SatResult {
 	}
 	t0 := time.Now()
 	s.SyncPC(pc)
+	scoped := false
 	if extra != nil && !extra.IsTrue() {
-		s.define(extra)
-		fmt.Fprintf(&s.buf, "(check-sat-assuming (%s))\n", extra.ref())
+		// the query literal lives in its own scope (symbols declared inside are forgotten with it)
+		s.buf.WriteString("(push 1)\n")
+		s.stack = append(s.stack, "?query")
+		s.declareSyms(extra)
+		fmt.Fprintf(&s.buf, "(assert %s)\n(check-sat)\n", PrintTerm(extra))
+		scoped = true
 	} else {
 		s.buf.WriteString("(check-sat)\n")
 	}
+	_ = scoped
 	s.flush()
 	s.queries++
 	res := Unknown
@@ -229,7 +287,7 @@ func (s *Solver) Check(pc []*Term, extra *Term) SatResult {
 	}
 	dt := time.Since(t0).Seconds()
 	s.timeS += dt
-	if dumpDir != "" && dt > 2 {
+	if dumpDir != "" && dt > 0.08 {
 		s.dumpN++
 		os.WriteFile(fmt.Sprintf("%s/q%d_%d_%s.smt2", dumpDir, os.Getpid(), s.dumpN, res), []byte(Standalone(pc, extra)+"(check-sat)\n"), 0o644)
 	}
@@ -362,35 +420,25 @@ func (s *Solver) CheckModel(pc []*Term, extra *Term, syms map[string]uint8) (Sat
 // Standalone renders pc ∧ extra as a self-contained SMT-LIB script body (no check-sat).
 func Standalone(pc []*Term, extra *Term) string {
 	var sb strings.Builder
-	seen := map[string]bool{}
-	var emit func(t *Term)
-	emit = func(t *Term) {
-		if t == nil || t.op == OpConst {
-			return
-		}
-		key := t.ref()
-		if seen[key] {
-			return
-		}
-		seen[key] = true
-		if t.op == OpSym {
-			fmt.Fprintf(&sb, "(declare-const %s %s)\n", symSMTName(t.name), sortOf(t.w))
-			return
-		}
-		emit(t.a)
-		emit(t.b)
-		emit(t.c)
-		fmt.Fprintf(&sb, "(define-fun %s () %s %s)\n", t.hname(), sortOf(t.w), t.body())
-	}
 	all := append([]*Term{}, pc...)
 	if extra != nil {
 		all = append(all, extra)
 	}
+	syms := map[string]uint8{}
+	seen := map[*Term]bool{}
 	for _, t := range all {
-		emit(t)
+		Syms(t, seen, syms)
+	}
+	names := make([]string, 0, len(syms))
+	for n := range syms {
+		names = append(names, n)
+	}
+	sort.Strings(names)
+	for _, n := range names {
+		fmt.Fprintf(&sb, "(declare-const %s %s)\n", symSMTName(n), sortOf(syms[n]))
 	}
 	for _, t := range all {
-		fmt.Fprintf(&sb, "(assert %s)\n", t.ref())
+		fmt.Fprintf(&sb, "(assert %s)\n", PrintTerm(t))
 	}
 	return sb.String()
 }
@@ -402,9 +450,9 @@ func (s *Solver) Value(t *Term) (uint64, bool) {
 	}
 	t0 := time.Now()
 	defer func() { s.timeS += time.Since(t0).Seconds(); s.valueS += time.Since(t0).Seconds() }()
-	s.define(t)
+	s.declareSyms(t)
 	s.flush()
-	s.send("(get-value (" + t.ref() + "))\n")
+	s.send("(get-value (" + PrintTerm(t) + "))\n")
 	line, err := s.readLine()
 	if err != nil {
 		return 0, false
